@@ -30,6 +30,16 @@ func substitute(e Node, doc map[string]any, tdoc Node) (Node, bool) {
 	return nil, false
 }
 
+// one way of executing a C18 case: rows > 0: that many rows, all with the case's value; -2: two rows, the
+// second with the value of the rotated arguments; under: the alias the row sits under
+type form18 struct {
+	name  string
+	sql   string
+	doc   func() map[string]any
+	rows  int
+	under string
+}
+
 // C18: one built-in call (possibly nested) executed as SELECT f(...) AS v FROM dual,
 // FROM a one-row table, and - for scalar arguments - with the arguments as literals.
 func checkC18(c Node) Verdict {
@@ -66,20 +76,28 @@ func checkC18(c Node) Verdict {
 		want = FromTagged(res)
 	}
 	v := Verdict{OK: true, SQL: "SELECT " + expr + " AS v FROM dual", Sig: sig, Nontrivial: true}
-	forms := []struct {
-		name string
-		sql  string
-		doc  func() map[string]any
-	}{
-		{"dual", "SELECT " + expr + " AS v FROM dual", func() map[string]any { return FromTagged(tdoc).(map[string]any) }},
-		{"table", "SELECT " + expr + " AS v FROM t", func() map[string]any { return map[string]any{"t": []any{FromTagged(tdoc)}} }},
+	forms := []form18{
+		{"dual", "SELECT " + expr + " AS v FROM dual", func() map[string]any { return FromTagged(tdoc).(map[string]any) }, 1, ""},
+		{"table", "SELECT " + expr + " AS v FROM t", func() map[string]any { return map[string]any{"t": []any{FromTagged(tdoc)}} }, 1, ""},
 	}
 	if lit, ok := substitute(e, nil, tdoc); ok && len(seq(e["args"])) > 0 {
-		forms = append(forms, struct {
-			name string
-			sql  string
-			doc  func() map[string]any
-		}{"literal", "SELECT " + Style{}.Expr(lit) + " AS v FROM dual", func() map[string]any { return map[string]any{} }})
+		forms = append(forms, form18{"literal", "SELECT " + Style{}.Expr(lit) + " AS v FROM dual", func() map[string]any { return map[string]any{} }, 1, ""})
+	}
+	// the same call inside nested statements: a CTE body, a derived table, both sides of a UNION ALL
+	one := func(rows ...any) func() map[string]any {
+		return func() map[string]any { return map[string]any{"t": DeepCopy(any(rows))} }
+	}
+	forms = append(forms,
+		form18{"cte", "WITH c AS (SELECT " + expr + " AS v FROM t) SELECT * FROM c", one(FromTagged(tdoc)), 1, ""},
+		form18{"derived", "SELECT * FROM (SELECT " + expr + " AS v FROM t) x", one(FromTagged(tdoc)), 1, "x"},
+		form18{"union", "SELECT " + expr + " AS v FROM t UNION ALL SELECT " + expr + " AS v FROM t", one(FromTagged(tdoc)), 2, ""})
+	// two rows, the second with rotated arguments: one call site evaluated twice
+	res2, _ := c["res2"].(Node)
+	doc2, _ := c["doc2"].(Node)
+	var want2 any
+	if res2 != nil && res2["t"] != "err" && !wantErr {
+		want2 = FromTagged(res2)
+		forms = append(forms, form18{"rows2", "SELECT " + expr + " AS v FROM t", one(FromTagged(tdoc), FromTagged(doc2)), -2, ""})
 	}
 	for _, f := range forms {
 		out := Run(f.doc(), f.sql, false, Opts(nil, nil, consts)...)
@@ -97,12 +115,25 @@ func checkC18(c Node) Verdict {
 		if out.Err != nil {
 			return fail("error", f.sql, fsig, "specification: %s; engine returned error: %v", Canon(want), out.Err)
 		}
-		if len(out.Rows) != 1 {
-			return fail("result", f.sql, fsig, "expected one row, got %s", Canon(any(out.Rows)))
+		n := f.rows
+		if n < 0 {
+			n = -n
 		}
-		row, ok := out.Rows[0].(map[string]any)
-		if !ok || len(row) != 1 || !Equal(row["v"], want) {
-			return fail("result", f.sql, fsig, "want v = %s got %s", Canon(want), Canon(out.Rows[0]))
+		if len(out.Rows) != n {
+			return fail("result", f.sql, fsig, "expected %d row(s), got %s", n, Canon(any(out.Rows)))
+		}
+		for i, r := range out.Rows {
+			w := want
+			if f.rows < 0 && i == 1 {
+				w = want2
+			}
+			row, ok := r.(map[string]any)
+			if ok && f.under != "" {
+				row, ok = row[f.under].(map[string]any)
+			}
+			if !ok || len(row) != 1 || !Equal(row["v"], w) {
+				return fail("result", f.sql, fsig, "row %d: want v = %s got %s", i+1, Canon(w), Canon(r))
+			}
 		}
 	}
 	return v
